@@ -30,9 +30,13 @@ class Troublemaker(actors.Party):
         if self.first:
             self.first = False
             return [{"op": "create", "b": "tmp", "meta": gen.meta(r, wild=False)}, {"op": "delete_bucket", "b": "tmp"}]
-        if r.random() < 0.6:
+        x = r.random()
+        if x < 0.45:
             return {"op": "insert_stale", "b": "tmp", "ev": gen.event(r, self.cfg["lat"])}
         b = r.choice(self.watchers)
+        if x < 0.75:
+            # somebody edits the bucket's metadata between two heartbeats: no business of the events
+            return {"op": "update", "b": b, "fields": actors.update_fields(r)}
         return [{"op": "delete_bucket", "b": b}, {"op": "create", "b": b, "meta": gen.meta(r, wild=False)}]
 
 
